@@ -220,7 +220,7 @@ func (rep *Report) nativePhase() error {
 func (rep *Report) depPkgs() []string {
 	var out []string
 	for _, d := range rep.Spec.Sched {
-		if strings.Contains(strings.SplitN(d, "/", 2)[0], ".") {
+		if d != "*" && strings.Contains(strings.SplitN(d, "/", 2)[0], ".") {
 			out = append(out, d)
 		}
 	}
@@ -237,7 +237,23 @@ func (rep *Report) rewriteFn(curPkg string) func(string, map[string]string) erro
 		if err != nil {
 			return err
 		}
-		return buildRewriteOverlay(ld.byDir, rep.Repo, rep.Spec.Clock, rep.Spec.Sched, scratch, replace, curPkg)
+		sched := rep.Spec.Sched
+		if contains(sched, "*") {
+			// every go-coap package of the program is instrumented
+			var all []string
+			for d, p := range ld.byDir {
+				if strings.HasPrefix(p.PkgPath, modulePath) {
+					all = append(all, d)
+				}
+			}
+			for _, d := range sched {
+				if d != "*" {
+					all = append(all, d)
+				}
+			}
+			sched = all
+		}
+		return buildRewriteOverlay(ld.byDir, rep.Repo, rep.Spec.Clock, sched, scratch, replace, curPkg)
 	}
 }
 
